@@ -30,6 +30,7 @@ func declareSchemas() {
 	sym.DeclareKeyed("node", nodetypes.FaultIdKeyPrefix, &nodetypes.Fault{}, func(f nodetypes.Fault) []byte { return []byte(f.FaultId) })
 	sym.DeclareRawString("node", nodetypes.FaultKeyPrefix)
 	sym.DeclareRaw("node", nodetypes.NodeRoundKeyPrefix, 1)
+	sym.DeclareRawString("node", nodetypes.FishingRewardKey)
 
 	sym.DeclareKeyed("model", modeltypes.MetadataKeyPrefix, &modeltypes.Metadata{}, func(m modeltypes.Metadata) []byte { return modeltypes.MetadataKey(m.DataId) })
 	sym.DeclareKeyed("model", modeltypes.ModelKeyPrefix, &modeltypes.Model{}, func(m modeltypes.Model) []byte { return modeltypes.ModelKey(m.Key) })
